@@ -185,6 +185,12 @@ pub fn run(rep: &Report) -> serde_json::Value {
         if n <= 300 { longs.push(OwnedTerm::Tuple(bytes.clone())); }
         longs.push(OwnedTerm::ImproperList { elements: bytes, tail: Box::new(int(7)) });
     }
+    // binaries, bit-strings and strings on both sides of every 16-bit length (and 1 MiB)
+    for n in [255usize, 256, 65_535, 65_536, 65_537, 70_000, 1 << 20] {
+        longs.push(OwnedTerm::Binary((0..n).map(|i| (i % 251) as u8).collect()));
+        for bits in [1u8, 7, 8] { let mut b: Vec<u8> = (0..n).map(|i| (i % 251) as u8).collect(); let l = b.len() - 1; b[l] &= 0xffu8 << (8 - bits); longs.push(OwnedTerm::BitBinary { bytes: b, bits }); }
+        if n <= 70_000 { longs.push(OwnedTerm::String("é".repeat(n / 2))); longs.push(OwnedTerm::Tuple(vec![atom("k"), OwnedTerm::Binary(vec![7; n])])); }
+    }
     longs.par_iter().for_each(|t| check_term(&cx, t, "long-byte-lists"));
     fam.insert("leaves".into(), json!(l1.len() + 3 + over.len()));
     for t in l1.iter().take(4) {
